@@ -423,10 +423,11 @@ theorem C06_crash_at_any_write (c : Cfg) (hpos : 1 ≤ c.initialHeight) (acts : 
     | none => σ).a = ac
   rw [h]
 
-/-- the statement of the earlier rounds (production runs only, accepting DA layer): after any production run from a
+/-- a NARROW corollary kept from the earlier rounds (header watermark only, production-only runs, accepting DA layer) — the
+property's main statement is theorem `C06` above: after any production run from a
 fresh start, one header iteration against an accepting DA layer brings the header watermark to the chain height — for
 every initial height ≥ 1 -/
-def C06_full : Prop :=
+def C06_headers_reach_height_on_accepting_da : Prop :=
   ∀ (c : Cfg) (rs : List (SeqResp × ExecResp)), 1 ≤ c.initialHeight →
     (headersIter { freshA c with n := run c (freshNode c) rs } []).1.n.hdrWm = (run c (freshNode c) rs).store.height
 
@@ -437,7 +438,7 @@ theorem runA_produce (c : Cfg) (a : ANode) (rs : List (SeqResp × ExecResp)) :
   | cons r rs ih => exact ih _
 
 /-- **it holds now** (it was refuted by the witness below until /repo 6924f89) -/
-theorem C06_full_holds : C06_full := by
+theorem C06_headers_reach_height_on_accepting_da_holds : C06_headers_reach_height_on_accepting_da := by
   intro c rs hpos
   have h := ((C06 c hpos ((rs.map fun r => Act.produce r.1 r.2).map .act)).2.2.2.2.2.2.2.2 [] [] rfl (by simp) (by decide)).1
   rw [runR_act, runA_produce] at h
